@@ -1,18 +1,61 @@
 (* Case runner for C03: decodes harness cases, runs the merge model, judges the implementation.
    input    = ["merge"; [profile dumps]; [[(mapping id, kernel relocation symbol)] per input]]
             | ["compact"; [one profile dump]; [..]]  (p.Compact(); same observable, same judgement as Merge [p])
+            | ["e2e"; [source: ["ok"; dump] | ["fail"]]; [bases likewise]; diff_base; script]   (driver.PProf end to end;
+                 script item = [kind; a; b; judged]: ["set"; option; value] | ["cmd"; command; argument] | ["get"; path; query];
+                 observed ["ok" | "error"; [per judged item: ["profile"; dump] | ["raw"; parsed Profile.String] | ["missing"]]])
             | ["skey"; sample]                      (byte-level check of sampleKey)
             | ["lkey"; profile with one location]   (field-level check of Location.key, lines string included)
    observed = ["ok"; dump; [shared pointer paths]; inputs-modified; compact-is-identity;
                [(mapping id, krs) of the result]; [dump of Merge(reversed inputs)]]
             | ["err"] | ["panic"; msg]              | ["key"; bytes] *)
-From PV Require Import M_Merge S_Merge.
+From PV Require Import M_Merge S_Merge M_MergeGlue.
 Open Scope string_scope.
 Open Scope Z_scope.
 
 Definition inputs_of (i : term) : list profile := map profile_of (gl (gn i 1)).
 
+
+(* ------------------------------------------------------------------ end to end (driver.PProf) *)
+Definition opt_profile_of (t : term) : option profile :=
+  if String.eqb (gs (gn t 0)) "ok" then Some (profile_of (gn t 1)) else None.
+Definition e2e_srcs (i : term) : list (option profile) := map opt_profile_of (gl (gn i 1)).
+Definition e2e_bases (i : term) : list (option profile) := map opt_profile_of (gl (gn i 2)).
+Definition e2e_script (i : term) : list term := gl (gn i 4).
+Definition it_kind (t : term) := gs (gn t 0).
+Definition it_a (t : term) := gs (gn t 1).
+Definition it_b (t : term) := gs (gn t 2).
+Definition it_judged (t : term) := gb (gn t 3).
+
+Definition e2e_comment (script : list term) : string :=
+  fold_left (fun acc t => if String.eqb (it_kind t) "set" && String.eqb (it_a t) "add_comment" then it_b t else acc) script "".
+
+(* the script, interpreted by the glue model: option assignments persist, every command / request
+   writes what the FETCHED profile gives under the options in force *)
+Fixpoint e2e_outputs (fetched : profile) (c : gcfg) (script : list term) : list term :=
+  match script with
+  | [] => []
+  | t :: r =>
+      if String.eqb (it_kind t) "set" then e2e_outputs fetched (gcfg_set c (it_a t) (it_b t)) r
+      else if negb (it_judged t) then e2e_outputs fetched c r
+      else if String.eqb (it_kind t) "get" then
+        TL [TS "profile"; of_profile (norm_profile (written_download fetched))] :: e2e_outputs fetched c r
+      else if String.eqb (it_a t) "raw" then
+        TL [TS "raw"; raw_view (written_raw c fetched)] :: e2e_outputs fetched c r
+      else TL [TS "profile"; of_profile (norm_profile (written_proto c fetched))] :: e2e_outputs fetched c r
+  end.
+
+Definition run_e2e (i : term) : term :=
+  match fetch_profiles (e2e_srcs i) (e2e_bases i) (gb (gn i 3)) (e2e_comment (e2e_script i)) with
+  | MOk f => TL [TS "ok"; TL (e2e_outputs f gcfg0 (e2e_script i))]
+  | _ => TL [TS "error"; TL []]
+  end.
+
+Definition norm_out (t : term) : term :=
+  if String.eqb (gs (gn t 0)) "profile" then TL [TS "profile"; of_profile (norm_profile (profile_of (gn t 1)))] else t.
+
 Definition run_C03 (i : term) : term :=
+  if String.eqb (gs (gn i 0)) "e2e" then run_e2e i else
   if String.eqb (gs (gn i 0)) "skey" then
     TL [TS "key"; of_zs (skey_bytes (skey_of_sample (sample_of (gn i 1))))]
   else if String.eqb (gs (gn i 0)) "lkey" then
@@ -34,6 +77,10 @@ Definition run_C03 (i : term) : term :=
 
 (* the model predicts the result kind and, for "ok", the complete dump (ids and order included) *)
 Definition eqv_C03 (i m o : term) : bool :=
+  if String.eqb (gs (gn i 0)) "e2e" then
+    String.eqb (gs (gn m 0)) (gs (gn o 0)) &&
+    (if String.eqb (gs (gn m 0)) "ok" then term_eqb (gn m 1) (TL (map norm_out (gl (gn o 1)))) else true)
+  else
   String.eqb (gs (gn m 0)) (gs (gn o 0)) &&
   (if String.eqb (gs (gn m 0)) "ok" || String.eqb (gs (gn m 0)) "key" then term_eqb (gn m 1) (gn o 1) else true).
 
@@ -89,7 +136,52 @@ Definition reversed_ok (ps : list profile) (q : profile) (o : term) : bool :=
       Nat.eqb (List.length (p_sample q)) (List.length (p_sample q'))
   end.
 
+(* scripts without an option that changes what is written: there the outputs ARE the merge of the sources *)
+Definition plain_script (script : list term) : bool :=
+  forallb (fun t => negb (String.eqb (it_kind t) "set" &&
+                          (String.eqb (it_a t) "noinlines" || String.eqb (it_a t) "divide_by" || String.eqb (it_a t) "add_comment")))
+          script.
+
+Fixpoint all_equal (l : list term) : bool :=
+  match l with
+  | a :: ((b :: _) as r) => term_eqb a b && all_equal r
+  | _ => true
+  end.
+
+Definition spec_e2e (i o : term) : bool :=
+  let srcs := successes (e2e_srcs i) in
+  let bases := successes (e2e_bases i) in
+  let diff := gb (gn i 3) in
+  let outs := map norm_out (gl (gn o 1)) in
+  let fetchable := match srcs with [] => false | _ => true end &&
+                   (match gl (gn i 2) with [] => true | _ => match bases with [] => false | _ => true end end) in
+  if negb fetchable then true
+  else if negb (in_domain (srcs ++ bases)) then true
+  else if negb (String.eqb (gs (gn o 0)) "ok") then false                       (* compatible sources must come out merged *)
+  else
+    let profs := flat_map (fun t => if String.eqb (gs (gn t 0)) "profile" then [profile_of (gn t 1)] else []) outs in
+    let raws := flat_map (fun t => if String.eqb (gs (gn t 0)) "raw" then [gn t 1] else []) outs in
+    forallb (fun t => negb (String.eqb (gs (gn t 0)) "missing") && negb (String.eqb (gs (gn t 0)) "unparsable")) outs &&
+    (negb (plain_script (e2e_script i)) ||
+     (* one and the same profile, however often and after whatever it is written *)
+     (all_equal (map of_profile profs) && all_equal raws &&
+      match profs, raws with q :: _, rw :: _ => term_eqb (raw_view q) rw | _, _ => true end &&
+      forallb (fun q =>
+                 valid_b q &&
+                 match bases with
+                 | [] =>
+                     conserves_b srcs q && totals_b srcs q && mappings_from_inputs srcs q &&
+                     match srcs with
+                     | _ :: _ :: _ => support_b q && headers_b srcs q
+                     | _ => true
+                     end
+                 | _ =>
+                     let nb := map (fun b => negate (if diff then mark_base b else b)) bases in
+                     conserves_b (srcs ++ nb) q && totals_b (srcs ++ nb) q && support_b q
+                 end) profs)).
+
 Definition spec_C03 (i o : term) : bool :=
+  if String.eqb (gs (gn i 0)) "e2e" then spec_e2e i o else
   if String.eqb (gs (gn i 0)) "skey" || String.eqb (gs (gn i 0)) "lkey" then true else
   let ps := inputs_of i in
   let res := gs (gn o 0) in
@@ -106,6 +198,8 @@ Definition spec_C03 (i o : term) : bool :=
 (* class 25 = F25: some input has a negative period (the documented "maximum" is then not what
    the code computes when only zero periods precede it) *)
 Definition cls_C03 (i : term) : list Z :=
+  if String.eqb (gs (gn i 0)) "e2e" then
+    (if in_F25 (successes (e2e_srcs i) ++ successes (e2e_bases i)) then [25%Z] else []) else
   if String.eqb (gs (gn i 0)) "skey" || String.eqb (gs (gn i 0)) "lkey" then [] else
   if in_F25 (inputs_of i) then [25%Z] else [].
 
